@@ -215,8 +215,8 @@ impl Engine for Pfx07 {
     }
     fn budget(&self, cfg: &Cfg) -> Budget {
         match cfg.tier {
-            Tier::Quick => Budget { runs: 40_000, max_secs: 25.0 },
-            Tier::Thorough => Budget { runs: 2_000_000, max_secs: 360.0 },
+            Tier::Quick => Budget { runs: 300_000, max_secs: 25.0 },
+            Tier::Thorough => Budget { runs: 8_000_000, max_secs: 360.0 },
         }
     }
 
